@@ -284,3 +284,63 @@ Proof.
   induction cbs1 as [|[e n|b] t IH]; intros o cbs2; cbn [app written opened_after]; [reflexivity| |apply IH].
   destruct (o || te_boundary e); [now rewrite <- app_assoc, IH|apply IH].
 Qed.
+
+(* ---- an HTTP-TS subscriber inside the group: PAT/PMT, then every frame from
+   the first boundary frame after it joined, in delivery order ---- *)
+Fixpoint from_boundary (evs : list tsev) : list tsev :=
+  match evs with
+  | [] => []
+  | e :: t => if te_boundary e then e :: t else from_boundary t
+  end.
+
+Lemma sub_feed_fold pp : forall evs u,
+  u_wait u = true ->
+  let u' := fold_left (fun v ev => sub_feed (Some pp) ev v) evs u in
+  u_id u' = u_id u
+  /\ u_out u' = (u_out u ++ (if u_fresh u then (match evs with [] => [] | _ => pp end) else []) ++ concat (map ev_bytes (from_boundary evs)))%list.
+Proof.
+  assert (Hrun : forall evs u, u_wait u = false -> u_fresh u = false ->
+            let u' := fold_left (fun v ev => sub_feed (Some pp) ev v) evs u in
+            u_id u' = u_id u /\ u_out u' = (u_out u ++ concat (map ev_bytes evs))%list).
+  { induction evs as [|e t IH]; intros u Hw Hf; cbn [fold_left map concat]; [now rewrite app_nil_r|].
+    destruct (IH (sub_feed (Some pp) e u)) as [I1 I2]; try (unfold sub_feed; rewrite Hw, Hf; reflexivity).
+    cbn zeta. rewrite I1, I2. unfold sub_feed. rewrite Hw, Hf. cbn [u_id u_out]. now rewrite <- app_assoc. }
+  induction evs as [|e t IH]; intros u Hw; cbn [fold_left map concat from_boundary].
+  - destruct (u_fresh u); now rewrite !app_nil_r.
+  - destruct (te_boundary e) eqn:Eb.
+    + destruct (Hrun t (sub_feed (Some pp) e u)) as [I1 I2]; try (unfold sub_feed; rewrite Hw, Eb; reflexivity).
+      cbn zeta. rewrite I1, I2. unfold sub_feed. rewrite Hw, Eb. cbn [u_id u_out map concat].
+      split; [reflexivity|]. destruct (u_fresh u); rewrite <- ?app_assoc; cbn [app]; rewrite <- ?app_assoc; reflexivity.
+    + assert (Hw' : u_wait (sub_feed (Some pp) e u) = true) by (unfold sub_feed; rewrite Hw, Eb; reflexivity).
+      destruct (IH _ Hw') as [I1 I2]. cbn zeta. rewrite I1, I2. unfold sub_feed. rewrite Hw, Eb. cbn [u_id u_out u_fresh].
+      split; [reflexivity|]. destruct (u_fresh u); rewrite <- ?app_assoc; [|reflexivity].
+      destruct t; cbn [app from_boundary map concat]; now rewrite ?app_nil_r.
+Qed.
+
+Lemma fold_map_subs p : forall n l,
+  fold_left (fun subs ev => map (sub_feed p ev) subs) n l
+  = map (fun u => fold_left (fun v ev => sub_feed p ev v) n u) l.
+Proof.
+  induction n as [|x n' IH]; intros l; cbn [fold_left]; [now rewrite map_id|].
+  rewrite IH, map_map. reflexivity.
+Qed.
+
+Section CfgSubs.
+  Variable c : cfg.
+
+  Definition only_ts (cbs : list cb) : Prop := Forall (fun x => match x with CbTs _ _ => True | CbPatPmt _ => False end) cbs.
+
+  Lemma replay_subs pp : forall cbs g, g_patpmt g = Some pp -> only_ts cbs ->
+    g_subs (replay gstate (g_apply c) g_onpatpmt g cbs)
+    = map (fun u => fold_left (fun v ev => sub_feed (Some pp) ev v) (cb_evs cbs) u) (g_subs g)
+    /\ g_patpmt (replay gstate (g_apply c) g_onpatpmt g cbs) = Some pp.
+  Proof.
+    induction cbs as [|[e n|b] t IH]; intros g Hp Ho; cbn [replay cb_evs flat_map].
+    - split; [now rewrite map_id|exact Hp].
+    - inversion Ho; subst. destruct (IH (g_apply c g e n)) as [I1 I2]; [exact Hp|assumption|].
+      split; [|exact I2]. rewrite I1. unfold g_apply. cbn [g_subs]. rewrite Hp.
+      rewrite fold_map_subs, !map_map. apply map_ext. intros u. fold (cb_evs t).
+      rewrite fold_left_app, fold_left_app. reflexivity.
+    - inversion Ho; subst. contradiction.
+  Qed.
+End CfgSubs.
